@@ -1,6 +1,6 @@
 /-
 Decidable forms of two hypotheses, so that the driver can tell the checks when a theorem applies:
-`distinctB` (= `DistinctNames`) and `subdirHyp` (= the hypotheses of the sub-directory theorem `C01_subdir`).
+`distinctB` (= `DistinctNames`) and `subdirHyp` (= the hypotheses of the sub-directory theorem `C01_subdir_partial`).
 -/
 import Scalibr.Proofs.WalkSubdir
 import Scalibr.Proofs.WalkMore
